@@ -28,7 +28,7 @@ let res_tok = function
   | RNum n -> tok_of_n n
   | RPanic -> "PANIC"
 
-let zle a b = Z.leq (z_of_n a) (z_of_n b)
+let zle a b = ZA.leq (z_of_n a) (z_of_n b)
 
 let eval inp obs =
   match inp with
@@ -42,8 +42,8 @@ let eval inp obs =
       | ["PANIC"] -> not (zle w max_total)
       | [t; q] -> zle w max_total && t = tok_of_n w
                   (* the property speaks about non-empty sets only *)
-                  && (Z.sign (z_of_n w) = 0 ||
-                      (q = tok_of_n (quorum_spec w) && Z.leq (Z.of_string q) (z_of_n w)))
+                  && (ZA.sign (z_of_n w) = 0 ||
+                      (q = tok_of_n (quorum_spec w) && ZA.leq (ZA.of_string q) (z_of_n w)))
       | _ -> false) in
     { default_verdict with model_obs; spec_ok = Some (spec obs); model_spec_ok = spec model_obs;
       nontrivial = true }
